@@ -37,6 +37,8 @@ type HEvent struct {
 	Op    *WDEvent  `json:"op,omitempty"`
 	Pre   bool      `json:"pre,omitempty"`
 	Fresh bool      `json:"fresh,omitempty"` // cat write of a new collection: its start positions are the current ends of its pchannels
+	// AfterOps: published only after this many operator requests have been answered and the service has come to rest
+	AfterOps int `json:"after_ops,omitempty"`
 }
 
 type SSpec struct {
@@ -70,6 +72,10 @@ type SOp struct {
 	Method string `json:"method,omitempty"`
 	// MustReject: a semantically invalid request (C19): any answer but an error response is a violation
 	MustReject bool `json:"must_reject,omitempty"`
+	// Gate: the request is issued only in a named window of the run (or once the history is used up):
+	// "pdrop_window" = a partition's drop message has been read on every shard in this incarnation and no drop request
+	// for it has reached the downstream yet
+	Gate string `json:"gate,omitempty"`
 }
 
 type SColl struct {
@@ -96,6 +102,8 @@ type SScript struct {
 	// StateFaults: how many state writes that the service makes on its own (a pause after a failure: no request on that task
 	// in flight) are refused by the store - the failing task must stop all the same
 	StateFaults int `json:"state_faults,omitempty"`
+	// Directed: a directed constellation the scenario was built around ("" = none)
+	Directed string `json:"directed,omitempty"`
 }
 
 const replicateChan = "by-dev-replicate-msg"
@@ -142,6 +150,13 @@ func GenS(rng *Rng, prop, variant, tier string) *SScript {
 	k.LogDebug = prop == "C18"
 	if prop == "C04" && rng.Pct(40) {
 		k.EventCap = rng.Range(1, 2)
+	}
+	// directed constellation (C04): two tasks on one downstream, an event queue of one, a partition drop right behind two
+	// partition creations, and an operator pause that lands while the drop barrier is complete but its request is not out
+	pq := prop == "C04" && rng.Pct(15)
+	if pq {
+		k.EventCap = 1
+		sc.Directed = "pdrop_queue"
 	}
 	if (prop == "C05" || prop == "C06") && rng.Pct(30) {
 		k.PChMode = rng.Range(1, 2)
@@ -241,9 +256,12 @@ func GenS(rng *Rng, prop, variant, tier string) *SScript {
 	if light {
 		nPre = rng.Range(0, 1)
 	}
+	if pq {
+		nPre = 2
+	}
 	for i := 0; i < nPre; i++ {
 		l := createColl(names[i], 1, "default", true)
-		if withParts && rng.Pct(40) {
+		if withParts && (rng.Pct(40) || (pq && i == 0)) {
 			createPart(l, true)
 		}
 		if !light {
@@ -258,7 +276,21 @@ func GenS(rng *Rng, prop, variant, tier string) *SScript {
 		if tier == "thorough" {
 			rounds = rng.Range(4, 16)
 		}
+		pqRound := -1
+		if pq {
+			pqRound = rng.Range(1, rounds-2)
+		}
 		for r := 0; r < rounds; r++ {
+			if r == pqRound {
+				first := len(sc.History)
+				createPart(lives[1], false)
+				createPart(lives[1], false)
+				createPart(lives[0], false)
+				dropPart(lives[0], lives[0].parts[0])
+				tick(false)
+				sc.History[first].AfterOps = 2
+				continue
+			}
 			for j := 0; j < rng.Range(0, 3); j++ {
 				var alive []*lc
 				for _, l := range lives {
@@ -270,7 +302,11 @@ func GenS(rng *Rng, prop, variant, tier string) *SScript {
 					data(Pick(rng, alive), false)
 				}
 			}
-			switch x := rng.Intn(100); {
+			x := rng.Intn(100)
+			if pq {
+				x = 45 // nothing but data and ticks around the directed events
+			}
+			switch {
 			case x < 12 && len(lives) < 3:
 				createColl(names[len(lives)], 1, "default", false)
 			case x < 20 || (prop == "C04" && x < 40):
@@ -394,6 +430,17 @@ func genSOps(rng *Rng, sc *SScript, prop string) {
 		}
 		if rng.Pct(15) {
 			sc.ConnFaults = []int{rng.Range(0, 5)}
+		}
+		if sc.Directed == "pdrop_queue" {
+			sc.Ops = []SOp{
+				{K: "create", Task: "tk01", Spec: &SSpec{Target: 0, Coll: "c1", Creds: "token"}},
+				{K: "create", Task: "tk02", Spec: &SSpec{Target: 0, Coll: "*", Creds: "token"}},
+				{K: "pause", Task: "tk01", Gate: "pdrop_window"},
+				{K: "resume", Task: "tk01"},
+			}
+			sc.Knobs.Crashes = 0
+			sc.Faults = map[string]int{}
+			sc.MsgFaults, sc.ConnFaults, sc.StateFaults = nil, nil, 0
 		}
 	default:
 		// lifecycle / ownership / API shapes: sequences over several tasks and targets
